@@ -32,12 +32,16 @@ type pitInst struct {
 	// name equal / prefix with CanBePrefix), whatever face the Data arrived on: key -> arrival time.
 	// Independent of the implementation's own satisfied flag and record clearing.
 	satAt map[string]time.Time
+	// C08.when findings made just BEFORE a periodic reaper run inside a T op (see step)
+	pre []report.Violation
 }
 
 type pitSys struct {
 	cfg fwsim.Config
 	ops []explore.Op
 	do  map[string]func(in *pitInst)
+	// longest Interest lifetime of the alphabet (length of the quiescent period)
+	maxLife time.Duration
 }
 
 const tick = 100 * time.Millisecond
@@ -47,10 +51,13 @@ const tick = 100 * time.Millisecond
 // capacity: content-store capacity (a management-configurable value); with the 2-3 Data names of
 // the alphabets, capacity >= 3 never evicts, 2 evicts in the "pitc" alphabet only, 1 evicts as soon
 // as a second name is cached, 0 evicts every Data right after it was admitted.
-func newPitSys(slice, strategy, csMode, fib string, capacity int) *pitSys {
-	s := &pitSys{do: map[string]func(in *pitInst){}}
+// own: the PIT reaper runs only when the table's OWN timer has fired (fwsim.Config.OwnPitTimer), as
+// in Thread.Run(), instead of unconditionally after every 100 ms clock step.
+func newPitSys(slice, strategy, csMode, fib string, capacity int, own bool) *pitSys {
+	s := &pitSys{do: map[string]func(in *pitInst){}, maxLife: time.Second}
 	s.cfg = fwsim.Config{
-		FibAlgo: fib, HashtableM: 2, CsCapacity: capacity, CsCapacityExact: true,
+		OwnPitTimer: own,
+		FibAlgo:     fib, HashtableM: 2, CsCapacity: capacity, CsCapacityExact: true,
 		CsAdmit: csMode == "cs" || csMode == "csa", CsServe: csMode == "cs", DnlLifetime: 2 * time.Second,
 		Routes:     []fwsim.Route{{Prefix: "/a", Face: fwsim.N2, Cost: 1}, {Prefix: "/", Face: fwsim.N3, Cost: 2}},
 		Strategies: []fwsim.StrategyChoice{{Prefix: "/", Strategy: strategy}},
@@ -150,6 +157,50 @@ func newPitSys(slice, strategy, csMode, fib string, capacity int) *pitSys {
 		}
 		addD(fwsim.N2, "/a/b", -1, "echo")
 		tops(100*time.Millisecond, 1100*time.Millisecond)
+	case "pitb":
+		// scale: a burst of k Interests with DISTINCT names and a short lifetime from one face within
+		// one step (k entries fall due in the same reaper period; k = 101 and 350 straddle a
+		// per-run budget of 100 once and more than three times), next to ordinary traffic
+		addI(fwsim.L1, "/a", false, false, 1, 200*time.Millisecond)
+		addI(fwsim.N4, "/a/b", false, false, 1, time.Second)
+		for _, k := range []int{101, 350} {
+			k := k
+			add(fmt.Sprintf("BurstNames(f1,/a/b/z0..z%d,200ms)", k-1), func(in *pitInst) {
+				for i := 0; i < k; i++ {
+					name := fmt.Sprintf("/a/b/z%d", i)
+					key := entryKey(name, false, false, "")
+					delete(in.satAt, key)
+					in.sim.Interest(fwsim.L1, fwsim.InterestSpec{Name: name, Nonce: fwsim.U32(uint32(5000 + i)), Lifetime: fwsim.Dur(200 * time.Millisecond)}, fwsim.LP{})
+				}
+				dl := in.sim.Now().Add(200 * time.Millisecond)
+				for _, e := range in.sim.Dump().Pit {
+					if strings.HasPrefix(e.Name, "/a/b/z") {
+						key := entryKey(e.Name, e.CanBePrefix, e.MustBeFresh, e.Hint)
+						if old, ok := in.deadline[key]; !ok || dl.After(old) {
+							in.deadline[key] = dl
+						}
+					}
+				}
+			})
+		}
+		addD(fwsim.N2, "/a/b", time.Second, "none")
+		addD(fwsim.N2, "/a/b/z0", time.Second, "none")
+		tops(100*time.Millisecond, 300*time.Millisecond)
+	case "pito":
+		// mixed lifetimes: one long-lived Interest (4 s, the default lifetime) keeps the head of the
+		// expiry queue far away while short-lived ones (100 ms, explicit 0) come, expire or are
+		// satisfied; meant for the own-timer mode, where reclaiming them depends on how the table
+		// re-arms its timer
+		s.maxLife = 4 * time.Second
+		addI(fwsim.L1, "/a", false, false, 1, 4*time.Second)
+		addI(fwsim.N4, "/a", false, false, 2, time.Second)
+		addI(fwsim.N4, "/a/b", false, false, 1, 100*time.Millisecond)
+		addI(fwsim.L1, "/a/b", false, false, 2, 0)
+		addI(fwsim.L1, "/a/b/c", true, false, 1, 4*time.Second)
+		addD(fwsim.N2, "/a", time.Second, "none")
+		addD(fwsim.N2, "/a/b", time.Second, "none")
+		addD(fwsim.N2, "/a/b/c", time.Second, "echo")
+		tops(100*time.Millisecond, 300*time.Millisecond)
 	default:
 		report.Fatal("unknown pit alphabet %q", slice)
 	}
@@ -273,21 +324,64 @@ func (in *pitInst) run(d time.Duration) {
 		if d < step {
 			step = d
 		}
-		in.sim.Advance(step)
-		in.sim.Tick()
+		in.pre = append(in.pre, in.step(step)...)
 		d -= step
 	}
+}
+
+// step moves the clock by dt, evaluates the C08.when clause on the state the forwarder was in up to
+// this instant (nothing has happened since the previous step: every entry present now was present
+// during the whole interval, so its age is judged at the END of the interval, before the periodic
+// work of this instant has had its turn), then runs the periodic arms: unconditionally, or - own
+// timer mode - the PIT reaper only if the table's own timer has fired.
+func (in *pitInst) step(dt time.Duration) []report.Violation {
+	in.sim.Advance(dt)
+	var v []report.Violation
+	if !in.pitEmpty() {
+		v = in.whenViolations()
+	}
+	for i := range v {
+		v[i].Detail = "just before the periodic reaper's turn: " + v[i].Detail
+	}
+	if in.sim.Cfg.OwnPitTimer {
+		in.sim.ServeOwn()
+	} else {
+		in.sim.Tick()
+	}
+	return v
 }
 
 func (s *pitSys) New() any {
 	return &pitInst{sim: fwsim.New(s.cfg), bare: map[string]time.Time{}, deadline: map[string]time.Time{}, satAt: map[string]time.Time{}}
 }
-func (s *pitSys) Ops(any) []explore.Op    { return s.ops }
-func (s *pitSys) Do(i any, op explore.Op) { in := i.(*pitInst); s.do[op.Name](in); in.track() }
+func (s *pitSys) Ops(any) []explore.Op { return s.ops }
+func (s *pitSys) Do(i any, op explore.Op) {
+	in := i.(*pitInst)
+	s.do[op.Name](in)
+	in.track()
+	in.pre = nil
+}
+
+// dedupKeys keeps the first violation of every key.
+func dedupKeys(in []report.Violation) (out []report.Violation) {
+	seen := map[string]bool{}
+	for _, x := range in {
+		if !seen[x.Clause+"|"+x.Key] {
+			seen[x.Clause+"|"+x.Key] = true
+			out = append(out, x)
+		}
+	}
+	return
+}
 
 func entryKey(name string, cbp, mbf bool, hint string) string {
 	return fmt.Sprintf("%s|%v|%v|%s", name, cbp, mbf, hint)
 }
+
+// pitEmpty: the PIT reports no entries (the reported size is compared with the true number of
+// entries after every transition and at the end of the quiescent period, clause C08.count / C08.pit;
+// in between it only saves taking a dump when there is nothing to judge).
+func (in *pitInst) pitEmpty() bool { return in.sim.Thread.VerifPitCs().PitSize() == 0 }
 
 // track maintains first-seen times of record-less entries (for the "promptly once satisfied" clause).
 func (in *pitInst) track() {
@@ -326,8 +420,11 @@ func (in *pitInst) track() {
 
 func (s *pitSys) Apply(i any, op explore.Op) (v []report.Violation) {
 	in := i.(*pitInst)
+	in.pre = nil
 	s.do[op.Name](in)
 	in.track()
+	v = append(v, dedupKeys(in.pre)...)
+	in.pre = nil
 	last := opKind(op.Name)
 	d := in.sim.Dump()
 	pc := in.sim.Thread.VerifPitCs()
@@ -381,13 +478,20 @@ func (in *pitInst) whenViolations() (v []report.Violation) {
 // an entry that lingers (but is gone once every lifetime has elapsed) is seen as well.
 func (s *pitSys) CheckState(i any) (v []report.Violation) {
 	in := i.(*pitInst)
-	// longest Interest lifetime 1 s, DNL lifetime 2 s; the DNL reaper removes <=100 per tick
+	// longest Interest lifetime (1 s; 4 s in the mixed-lifetime alphabet), DNL lifetime 2 s; the DNL
+	// reaper removes <=100 per tick
 	seenKey := map[string]bool{}
-	for left := 1*time.Second + 2*time.Second + 2*time.Second; left > 0; left -= tick {
-		in.sim.Advance(tick)
-		in.sim.Tick()
+	quiet := s.maxLife + 2*time.Second + 2*time.Second
+	for left := quiet; left > 0; left -= tick {
+		pre := in.step(tick)
+		if in.pitEmpty() && len(pre) == 0 {
+			clear(in.bare)
+			clear(in.deadline)
+			clear(in.satAt)
+			continue
+		}
 		in.track()
-		for _, x := range in.whenViolations() {
+		for _, x := range append(pre, in.whenViolations()...) {
 			if !seenKey[x.Key] {
 				seenKey[x.Key] = true
 				x.Detail = "during the quiescent period: " + x.Detail
@@ -407,7 +511,7 @@ func (s *pitSys) CheckState(i any) (v []report.Violation) {
 			ks = append(ks, k)
 		}
 		sort.Strings(ks)
-		v = append(v, report.Violation{Clause: "C08.pit", Key: "PIT not empty at quiescence: " + strings.Join(ks, " / "), Detail: fmt.Sprintf("%d PIT entries remain 5 s after the last event (all lifetimes <= 1 s): %+v", len(d.Pit), d.Pit)})
+		v = append(v, report.Violation{Clause: "C08.pit", Key: "PIT not empty at quiescence: " + strings.Join(ks, " / "), Detail: fmt.Sprintf("%d PIT entries remain %v after the last event (all lifetimes <= %v): %+v", len(d.Pit), quiet, s.maxLife, d.Pit)})
 	}
 	if d.NPit != len(d.Pit) || d.TokenMapSize != len(d.Pit) || d.QueueLen > len(d.Pit) {
 		v = append(v, report.Violation{Clause: "C08.pit", Key: "PIT bookkeeping differs from entries at quiescence", Detail: fmt.Sprintf("counter=%d tokenMap=%d queue=%d entries=%d", d.NPit, d.TokenMapSize, d.QueueLen, len(d.Pit))})
@@ -419,7 +523,7 @@ func (s *pitSys) CheckState(i any) (v []report.Violation) {
 		v = append(v, report.Violation{Clause: "C08.count", Key: "CsSize differs from stored entries at quiescence", Detail: fmt.Sprintf("counter=%d entries=%d", d.NCs, len(d.Cs))})
 	}
 	if n, q := in.sim.DnlSize(); n != 0 || q != 0 {
-		v = append(v, report.Violation{Clause: "C08.dnl", Key: "dead nonce list not empty after its lifetime", Detail: fmt.Sprintf("%d nonces / %d queue items remain 5 s after the last event (lifetime 2 s)", n, q)})
+		v = append(v, report.Violation{Clause: "C08.dnl", Key: "dead nonce list not empty after its lifetime", Detail: fmt.Sprintf("%d nonces / %d queue items remain %v after the last event (lifetime 2 s)", n, q, quiet)})
 	}
 	return v
 }
@@ -461,6 +565,11 @@ func (s *pitSys) Canon(i any) string {
 	fmt.Fprintf(&b, "lru=%v dead=%v", d.LruOrder, d.DeadNodes)
 	n, q := in.sim.DnlSize()
 	fmt.Fprintf(&b, " dnl=%d/%d", n, q)
+	if in.sim.Cfg.OwnPitTimer {
+		// when the table's own timer was last served (its next deadline is private to the clock shim)
+		_, since := in.sim.OwnTimerStats()
+		fmt.Fprintf(&b, " own=%v", sat(since))
+	}
 	// last issued token matters (echo): identify by the entry it maps to
 	if len(in.tokens) > 0 {
 		_, et, _ := fwsim.IssuedToken(in.tokens[len(in.tokens)-1])
@@ -474,18 +583,23 @@ func (s *pitSys) Canon(i any) string {
 }
 
 func buildPit(cfg string) explore.System {
-	f := strings.Fields(cfg) // pit|pitm|pitc <strategy> cs|csa|nocs <fib> [cap=N]
+	f := strings.Fields(cfg) // pit|pitm|pitc|pitb|pito <strategy> cs|csa|nocs <fib> [cap=N] [own]
 	st := fwsim.BestRoute
 	if f[1] == "mc" {
 		st = fwsim.Multicast
 	}
 	capacity := 2
+	own := false
 	for _, x := range f[4:] {
+		if x == "own" {
+			own = true
+			continue
+		}
 		if _, err := fmt.Sscanf(x, "cap=%d", &capacity); err != nil {
 			report.Fatal("bad pit config %q", cfg)
 		}
 	}
-	return newPitSys(f[0], st, f[2], f[3], capacity)
+	return newPitSys(f[0], st, f[2], f[3], capacity, own)
 }
 
 func pitConfigs(th bool) []explore.Config {
@@ -507,6 +621,19 @@ func pitConfigs(th bool) []explore.Config {
 	if th {
 		for _, name := range []string{"pitc mc csa nametree cap=1", "pitc br cs hashtable cap=0", "pitc br csa nametree cap=2", "pitm mc cs nametree cap=1", "pitm br csa nametree cap=0"} {
 			c = append(c, explore.Config{Name: name, MaxDepth: d, MaxDev: -1})
+		}
+	}
+	// the reaper driven by the table's OWN timer (as Thread.Run() does) instead of a fixed schedule:
+	// mixed long (4 s) and short (1 s, 100 ms, 0) lifetimes, and the ordinary alphabets
+	c = append(c, explore.Config{Name: "pito br cs nametree own", MaxDepth: d + 1, MaxDev: -1})
+	c = append(c, explore.Config{Name: "pito mc nocs hashtable own", MaxDepth: d, MaxDev: -1})
+	// scale: bursts of 101 / 350 distinct names falling due in one reaper period
+	// (a burst costs as much as 350 ordinary steps: one level less than the other alphabets)
+	c = append(c, explore.Config{Name: "pitb br cs nametree", MaxDepth: d - 1, MaxDev: -1})
+	c = append(c, explore.Config{Name: "pitb mc nocs nametree own", MaxDepth: d - 1, MaxDev: -1})
+	if th {
+		for _, name := range []string{"pitm br cs nametree own", "pitc mc csa hashtable cap=0 own", "pit br cs nametree own", "pito mc cs nametree", "pitb br nocs hashtable own"} {
+			c = append(c, explore.Config{Name: name, MaxDepth: d - 1, MaxDev: -1})
 		}
 	}
 	for _, name := range []string{"pit br cs nametree", "pit mc cs nametree", "pit br nocs hashtable", "pit mc nocs nametree"} {
